@@ -630,9 +630,10 @@ fn gen_typed(r: &mut Rng, t: &Ty, d: usize, vars: &Vec<(String, Ty)>) -> X {
             // composite values are lazy and do not close over their scope (known finding, probed
             // separately): the generator keeps let-bound values and let bodies scalar
             let vt = rand_ty(r, 0);
-            let name = format!("v{}", vars.len());
+            // sometimes shadow an existing name (the bound value may still use the outer binding of that name)
+            let name = if !vars.is_empty() && r.chance(1, 3) { r.pick(vars).0.clone() } else { format!("v{}", vars.len()) };
             let val = gen_typed(r, &vt, d1, vars);
-            let mut inner = vars.clone();
+            let mut inner: Vec<(String, Ty)> = vars.iter().filter(|(n, _)| *n != name).cloned().collect();
             inner.push((name.clone(), vt));
             return X::Let(vec![(name, val)], bx(gen_typed(r, t, d1, &inner)));
         }
@@ -1031,6 +1032,8 @@ pub fn run(args: &Args) {
             ("let-bound variable as if condition", "let v = true in (if [v][0] then 1 else 2) == 1", V::B(true)),
             ("let-bound boolean in logical and", "let v = true in v && v", V::B(true)),
             ("template with let-bound string", "let v = \"a\" in `x${v}` == \"xa\"", V::B(true)),
+            ("inner let shadows a name and uses the outer binding", "let p = 1 in let p = p + 1 in p == 2", V::B(true)),
+            ("two bindings of one let do not see each other", "let a = 1 in let a = 2; b = a in b == 1", V::B(true)),
         ];
         for (name, text, expect) in probes {
             out.case();
